@@ -432,3 +432,104 @@ func init() {
 	kit.RegisterReplay("TestC14Attributes", replay)
 	kit.RegisterReplay("TestC14RawPacket", replay)
 }
+
+// ---------------------------------------------------------------------------------------------
+// (d) histories: panics that need a prior state (statistics at the 256-bit bound, accounts
+// created by earlier packets, pauses, dust).
+
+func runC14History(w *world.World, c caseHistory, rec *kit.Recorder) error {
+	m := kit.NewMachine(w)
+	for i, s := range c.History {
+		o := m.Do(s)
+		if s.Packet == nil {
+			continue
+		}
+		if o.BuildErr != nil {
+			continue
+		}
+		if s.Packet.RawData == nil && orbiterAddressed(s.Packet.ReceiverString()) {
+			rec.NonTrivial(fmt.Sprintf("%d|%s", i, kit.JSON(s.Packet)))
+		}
+		if o.Out.Panicked() {
+			return fmt.Errorf("step %d (%s): OnRecvPacket panicked: %v\n%s", i, kit.JSON(s), o.Out.Panic, firstLines(o.Out.PanicStack, 40))
+		}
+		if o.Out.Ack == nil {
+			return fmt.Errorf("step %d: nil acknowledgement", i)
+		}
+		if o.Out.Success {
+			rec.Label("outcome", "success")
+		} else {
+			rec.Label("outcome", "error-ack")
+		}
+	}
+	return nil
+}
+
+// genHugeHistory aims at the 256-bit bound of the statistics: transfers of the 2^256-1-supply
+// denom on one route with the funds re-escrowed in between.
+func genHugeHistory(t *rapid.T, w *world.World) kit.History {
+	round := rapid.Custom(func(t *rapid.T) kit.Transfer {
+		user := pick(t, "huge/user", []string{"alice", "bob"})
+		amt := pick(t, "huge/amt", []string{
+			"57896044618658097711785492504343953926634992332820282019728792003956564819968", // 2^255
+			"57896044618658097711785492504343953926634992332820282019728792003956564819967",
+			"115792089237316195423570985008687907853269984665640564039457584007913129639935",
+			"38597363079105398474523661669562635951089994888546854679819194669304376546645", // ~2^256/3
+			"1",
+		})
+		var route kit.Route
+		if chance(t, "huge/hyp", 30) {
+			route = kit.Route{Kind: "hyp", Domain: 1, TokenID: w.HypToken[world.Uhuge], Recipient: kit.Fill32(1)}
+		} else {
+			route = kit.Route{Kind: "internal", To: world.Addr(user).String()}
+		}
+		tr := kit.Transfer{Channel: 0, Denom: world.Uhuge, Amount: amt, Route: route}
+		if chance(t, "huge/fee", 30) {
+			tr.Actions = []kit.Action{{Kind: "fee", Fees: []kit.Fee{{Recipient: world.Addr("carol").String(), Bps: uint32(rapid.IntRange(1, 10000).Draw(t, "huge/bps"))}}}}
+		}
+		return tr
+	})
+	var h kit.History
+	for _, tr := range rapid.SliceOfN(round, 2, 6).Draw(t, "huge/rounds") {
+		tr := tr
+		h = append(h, kit.Step{Packet: &tr})
+		// the recipients transfer the coins out again: back into the channel escrow.
+		// (Coins locked as Hyperlane collateral stay locked: only an incoming Hyperlane message
+		// releases them, together with warp's own collateral bookkeeping.)
+		for _, u := range []string{"alice", "bob", "carol"} {
+			h = append(h, kit.Step{Env: &kit.Env{Kind: "reescrow", User: u, Channel: 0, Denom: world.Uhuge, Amount: "all"}})
+		}
+	}
+	return h
+}
+
+func TestC14History(t *testing.T) {
+	w := prod(t)
+	rec := kit.NewRecorder(t, "C14")
+	opt := historyOptMixed(w, maxSteps())
+	rapid.Check(t, func(rt *rapid.T) {
+		var c caseHistory
+		if chance(rt, "huge", 25) {
+			c.History = genHugeHistory(rt, w)
+			rec.Label("history", "huge-amounts")
+		} else {
+			c.History = kit.GenHistory(rt, opt)
+			rec.Label("history", "mixed")
+		}
+		rec.Eval()
+		if err := runC14History(w, c, rec); err != nil {
+			rec.Fail(rt, c, "%v", err)
+		}
+	})
+	rec.Require("outcome", "success", 20)
+}
+
+func init() {
+	kit.RegisterReplay("TestC14History", func(raw json.RawMessage) error {
+		c, err := decode[caseHistory](raw)
+		if err != nil {
+			return fmt.Errorf("harness: %w", err)
+		}
+		return runC14History(prodW, c, nil)
+	})
+}
